@@ -179,16 +179,17 @@ theorem sepDigits_of_isLigName {cs k : List Char} {n : Nat} (h : isLigName k n c
 
 /-! ### what a successfully parsed, non-contextual, non-ignorable name looks like -/
 
-theorem parseAnchor_shape {cs : List Char} {p : Parsed} (h : parseAnchor cs = .ok p) (hctx : p.ctx = false)
+theorem parseCore_shape {cs : List Char} {ctx : Bool} {p : Parsed}
+    (h : checkE (parseCore cs ctx) = .ok p)
     (hign : keyIgnorable p.key = false) :
+    p.ctx = ctx ∧
     (p.isMark = true → cs = '_' :: p.key ∧ plainKey p.key = true ∧ p.number = none) ∧
     (p.isMark = false → p.number = none → cs = p.key ∧ HeadAlpha p.key) ∧
     (p.isMark = false → ∀ n, p.number = some n → 1 ≤ n ∧ isLigName p.key n cs = true ∧ (p.key = [] ∨ HeadAlpha p.key)) := by
-  unfold parseAnchor at h
-  cases hp : parseChars cs with
-  | error e => rw [hp] at h; simp at h
+  cases hp : parseCore cs ctx with
+  | error e => rw [hp] at h; simp [checkE] at h
   | ok p0 =>
-    rw [hp] at h; simp only at h
+    rw [hp] at h; simp only [checkE] at h
     -- checkNamed returns its argument
     have hp0 : p0 = p ∧ (∀ n, p.number = some n → 1 ≤ n) ∧ (p.number = none → p.key ≠ []) := by
       unfold checkNamed at h
@@ -208,23 +209,19 @@ theorem parseAnchor_shape {cs : List Char} {p : Parsed} (h : parseAnchor cs = .o
           simp only [Except.ok.injEq] at h; subst h
           exact ⟨rfl, by intro m hm; rw [hn] at hm; cases hm; omega, by simp [hn]⟩
     obtain ⟨rfl, hn1, hk1⟩ := hp0
-    unfold parseChars at hp
-    simp only at hp
-    -- not contextual: the name is used as it is
-    have hc : (cs.head? == some '*') = false := by
-      cases hc : (cs.head? == some '*') with
-      | false => rfl
-      | true =>
-        rw [hc] at hp; simp only [if_true] at hp
-        split at hp
+    have hctx : p0.ctx = ctx := by
+      unfold parseCore at hp
+      simp only at hp
+      split at hp
+      · split at hp
+        · simp at hp
         · split at hp
           · simp at hp
-          · split at hp
-            · simp at hp
-            · simp only [Except.ok.injEq] at hp; subst hp; simp at hctx
-        · simp only [Except.ok.injEq] at hp; subst hp; simp at hctx
-    rw [hc] at hp
-    simp only [Bool.false_eq_true, if_false] at hp
+          · simp only [Except.ok.injEq] at hp; subst hp; rfl
+      · simp only [Except.ok.injEq] at hp; subst hp; rfl
+    refine ⟨hctx, ?_⟩
+    unfold parseCore at hp
+    simp only at hp
     rcases ligSplit_cases cs with ⟨hl, hno⟩ | ⟨q, ds, hsd, hl⟩
     · rw [hl] at hp; simp only at hp
       split at hp
@@ -262,6 +259,28 @@ theorem parseAnchor_shape {cs : List Char} {p : Parsed} (h : parseAnchor cs = .o
         · exact Or.inr (headAlpha_of_not_ignorable hign hq)
 
 
+theorem parseAnchor_shapeX {cs : List Char} {p : Parsed} (h : parseAnchor cs = .ok p)
+    (hign : keyIgnorable p.key = false) :
+    p.ctx = (cs.head? == some '*') ∧
+    (p.isMark = true → effName cs = '_' :: p.key ∧ plainKey p.key = true ∧ p.number = none) ∧
+    (p.isMark = false → p.number = none → effName cs = p.key ∧ HeadAlpha p.key) ∧
+    (p.isMark = false → ∀ n, p.number = some n →
+      1 ≤ n ∧ isLigName p.key n (effName cs) = true ∧ (p.key = [] ∨ HeadAlpha p.key)) :=
+  parseCore_shape (by simpa [parseAnchor, parseChars] using h) hign
+
+theorem effName_plain {cs : List Char} (h : (cs.head? == some '*') = false) : effName cs = cs := by
+  simp [effName, h]
+
+theorem parseAnchor_shape {cs : List Char} {p : Parsed} (h : parseAnchor cs = .ok p) (hctx : p.ctx = false)
+    (hign : keyIgnorable p.key = false) :
+    (p.isMark = true → cs = '_' :: p.key ∧ plainKey p.key = true ∧ p.number = none) ∧
+    (p.isMark = false → p.number = none → cs = p.key ∧ HeadAlpha p.key) ∧
+    (p.isMark = false → ∀ n, p.number = some n → 1 ≤ n ∧ isLigName p.key n cs = true ∧ (p.key = [] ∨ HeadAlpha p.key)) := by
+  obtain ⟨h0, h1⟩ := parseAnchor_shapeX h hign
+  rw [hctx] at h0
+  rw [effName_plain h0.symm] at h1
+  exact h1
+
 /-! ### the naming convention read forwards: `_k`, `k`, `k_N`, `_N` -/
 
 theorem headAlpha_head {k : List Char} (h : HeadAlpha k) :
@@ -273,7 +292,7 @@ theorem headAlpha_head {k : List Char} (h : HeadAlpha k) :
 
 theorem parseChars_nonmark (cs : List Char) (h1 : (cs.head? == some '*') = false) (h2 : (cs.head? == some '_') = false) :
     parseChars cs = .ok ⟨false, (ligSplit cs).1, (ligSplit cs).2, false⟩ := by
-  simp only [parseChars, h1, h2, Bool.false_eq_true, if_false, Bool.false_and]
+  simp only [parseChars, parseCore, effName, h1, h2, Bool.false_eq_true, if_false, Bool.false_and]
 
 theorem parseChars_us (r : List Char) :
     parseChars ('_' :: r) =
@@ -284,7 +303,7 @@ theorem parseChars_us (r : List Char) :
       else .ok ⟨false, (ligSplit ('_' :: r)).1, (ligSplit ('_' :: r)).2, false⟩ := by
   have h1 : ((('_' : Char) :: r).head? == some '*') = false := by simp only [head?_cons]; decide
   have h2 : ((('_' : Char) :: r).head? == some '_') = true := by simp
-  simp only [parseChars, h1, h2, Bool.false_eq_true, if_false, Bool.true_and]
+  simp only [parseChars, parseCore, effName, h1, h2, Bool.false_eq_true, if_false, Bool.true_and]
 
 /-- `_k` is the mark anchor of key k -/
 theorem parse_mark {k : List Char} (hk : plainKey k = true) :
@@ -307,7 +326,7 @@ theorem parse_mark {k : List Char} (hk : plainKey k = true) :
       simp only [cons_append, cons.injEq] at e
       exact hno ⟨p, ds, hne, hd, e.2⟩
   rcases ligSplit_cases ('_' :: c :: r) with ⟨hl, _⟩ | ⟨q, ds, hsd, _⟩
-  · rw [parseAnchor, parseChars_us, hl]; simp [checkNamed]
+  · rw [parseAnchor, parseChars_us, hl]; simp [checkE, checkNamed]
   · exact absurd hsd (hns q ds)
 
 /-- `k` is the base anchor of key k -/
@@ -318,7 +337,7 @@ theorem parse_base {k : List Char} (hk : plainKey k = true) :
   obtain ⟨h1, h2, h3, _⟩ := headAlpha_head ha
   rcases ligSplit_cases k with ⟨hl, _⟩ | ⟨q, ds, hsd, _⟩
   · have h3' : k.isEmpty = false := by cases k <;> simp_all
-    rw [parseAnchor, parseChars_nonmark k h1 h2, hl]; simp [checkNamed, h3']
+    rw [parseAnchor, parseChars_nonmark k h1 h2, hl]; simp [checkE, checkNamed, h3']
   · exact absurd ⟨q, ds, hsd⟩ hno
 
 theorem headAlpha_append {k : List Char} (ha : HeadAlpha k) (t : List Char) : HeadAlpha (k ++ t) := by
@@ -333,7 +352,7 @@ theorem parse_lig {k ds : List Char} (ha : HeadAlpha k) (hne : ds ≠ []) (hd : 
   have hl := ligSplit_of_sepDigits hsd
   obtain ⟨h1, h2, _, _⟩ := headAlpha_head (headAlpha_append ha ('_' :: ds))
   have hn' : ¬ digitsToNat ds < 1 := by omega
-  rw [parseAnchor, parseChars_nonmark _ h1 h2, hl]; simp [checkNamed, hn']
+  rw [parseAnchor, parseChars_nonmark _ h1 h2, hl]; simp [checkE, checkNamed, hn']
 
 /-- `_N` declares component N empty: no key, number N -/
 theorem parse_null {ds : List Char} (hne : ds ≠ []) (hd : ∀ c ∈ ds, c.isDigit = true) (hn : 1 ≤ digitsToNat ds) :
@@ -341,14 +360,14 @@ theorem parse_null {ds : List Char} (hne : ds ≠ []) (hd : ∀ c ∈ ds, c.isDi
   have hsd : SepDigits ('_' :: ds) [] ds := ⟨hne, hd, rfl⟩
   have hl := ligSplit_of_sepDigits hsd
   have hn' : ¬ digitsToNat ds < 1 := by omega
-  rw [parseAnchor, parseChars_us, hl]; simp [checkNamed, hn']
+  rw [parseAnchor, parseChars_us, hl]; simp [checkE, checkNamed, hn']
 
 /-- `_k_N` is rejected ("mark anchor cannot be numbered") -/
 theorem parse_numbered_mark_error {k ds : List Char} (hne : ds ≠ []) (hd : ∀ c ∈ ds, c.isDigit = true) :
     parseAnchor ('_' :: (k ++ '_' :: ds)) = .error .valueError := by
   have hsd : SepDigits ('_' :: (k ++ '_' :: ds)) ('_' :: k) ds := ⟨hne, hd, rfl⟩
   have hl := ligSplit_of_sepDigits hsd
-  rw [parseAnchor, parseChars_us, hl]; simp
+  rw [parseAnchor, parseChars_us, hl]; simp [checkE]
 
 /-- a bare `_` is rejected ("mark anchor key is nil") -/
 theorem parse_bare_prefix_error : parseAnchor ['_'] = .error .valueError := by rfl
@@ -360,8 +379,8 @@ theorem parse_zero_error {k ds : List Char} (ha : HeadAlpha k ∨ k = []) (hne :
   have hl := ligSplit_of_sepDigits hsd
   rcases ha with ha | rfl
   · obtain ⟨h1, h2, _, _⟩ := headAlpha_head (headAlpha_append ha ('_' :: ds))
-    rw [parseAnchor, parseChars_nonmark _ h1 h2, hl]; simp [checkNamed, hn]
+    rw [parseAnchor, parseChars_nonmark _ h1 h2, hl]; simp [checkE, checkNamed, hn]
   · rw [nil_append] at hl ⊢
-    rw [parseAnchor, parseChars_us, hl]; simp [checkNamed, hn]
+    rw [parseAnchor, parseChars_us, hl]; simp [checkE, checkNamed, hn]
 
 end Ufo2ft.C06
